@@ -306,7 +306,13 @@ def rule_e(ctx: Context, R: Reporter, fit: FuncInfo):
     transcendental function or a threshold applied to a scaled quantity)."""
     from ..coord import INVC, CoordInterp, co
 
-    ci = CoordInterp(lambda c: ctx.res.external_name(fit, c))
+    def internal(call):
+        for t in ctx.res.call_targets(fit, call):
+            if isinstance(t, FuncInfo) and t.cls is None and t.parent is None and t is not fit:
+                return (t.node, (lambda c, t=t: ctx.res.external_name(t, c)), False)
+        return None
+
+    ci = CoordInterp(lambda c: ctx.res.external_name(fit, c), internal=internal)
     rets = ci.run(fit.node, {fit.params[0]: co(None, 1)})
     want = [co(1), co(1, 1), INVC]
     n = 0
@@ -397,6 +403,49 @@ def rule_d(ctx: Context, R: Reporter):
         R.analysed[f"C19.d:{m.name}.unknown_ops"] = sorted({u.why for u in di.unknowns})[:10]
 
 
+def rule_f(ctx: Context, R: Reporter, fit: FuncInfo):
+    """C19.f  per-coordinate typing of the mode factories: between the particles (samples x d_i) and the call of
+    the fit nothing mixes coordinates of different scale (a bandwidth from the pooled standard deviation, a
+    jitter of one width for every coordinate, a distance in raw coordinates)."""
+    from ..coord import INVC, CT, CoordInterp, co
+    from .c14 import mode_class
+
+    mc = mode_class(ctx)
+    facs = [m for m in mc.methods.values() if m.is_classmethod and "weights" in m.params]
+    R.floor("C19.f", "mode factories", len(facs), 2)
+    for m in facs:
+        def internal(call, m=m):
+            f = call.func
+            if isinstance(f, ast.Attribute) and isinstance(f.value, ast.Name) and f.value.id in ("cls", "self", mc.name):
+                t = ctx.prog.mro_lookup(mc, f.attr)
+                if t is not None and t is not m and not t.is_classmethod:
+                    return (t.node, (lambda c, t=t: ctx.res.external_name(t, c)), not t.is_staticmethod)
+            return None
+
+        def fit_summary(di, e, args):
+            a = args[0] if args else INVC
+            if a.kind == "arr" and len(a.axes) == 2 and a.axes[1] is not None:
+                k = a.axes[1]
+                return CT("tuple", items=[CT("arr", (k,)), CT("arr", (k, k)), INVC])
+            if a.kind in ("conflict", "unknown"):
+                return CT("tuple", items=[a, a, INVC])
+            return di._unknown("fit of an array that is not (samples, coordinates)", e)
+
+        ci = CoordInterp(lambda c, m=m: ctx.res.external_name(m, c), internal=internal, summaries={fit.name: fit_summary, "cls": lambda di, e, a: INVC})
+        ci.run(m.node, {"u": co(None, 1)})
+        seen = set()
+        for c in ci.conflicts:
+            k = norm_text(c.node)[:80] if c.node is not None else c.why
+            if k in seen:
+                continue
+            seen.add(k)
+            R.check("C19.f", f"{m.short}: the particles reach the fit without mixing coordinates of different scale", False, m, c.node if c.node is not None else m.node,
+                    msg=f"{m.short}: {c.why} at `{unparse(c.node)[:70] if c.node is not None else ''}`: the fitted location / scale matrix is not equivariant under per-coordinate "
+                        f"rescaling of the particles (unit-cube coordinates of very different spread)", key=f"coord-conflict:{m.name}:{k}")
+        if not ci.conflicts:
+            R.check("C19.f", f"{m.short} is equivariant under per-coordinate scaling up to the fit (typing closed)", True, m, m.node, key=f"coord-clean:{m.name}")
+
+
 def run(ctx: Context, R: Reporter):
     fit = fit_fn(ctx)
     R.guard(rule_a, ctx, R, fit)
@@ -404,6 +453,7 @@ def run(ctx: Context, R: Reporter):
     R.guard(rule_c, ctx, R)
     R.guard(rule_e, ctx, R, fit)
     R.guard(rule_d, ctx, R)
+    R.guard(rule_f, ctx, R, fit)
 
 
 def variants():
